@@ -597,6 +597,22 @@ func (rt *runtimeS) step(st Step) {
 			e.K = "cread"
 			p := rt.pipeOf(conn, "s2c")
 			p.with(func() { p.rerr = io.EOF; tr.emit(e) })
+		case "creadtmp": // ... with a net.Error that calls itself temporary (ETIMEDOUT on a dead peer does)
+			e.K = "cread"
+			p := rt.pipeOf(conn, "s2c")
+			p.with(func() { p.rerr = errTemporary{}; tr.emit(e) })
+		case "creadctx": // ... with an error that wraps context.Canceled although nobody's context is done
+			e.K = "cread"
+			p := rt.pipeOf(conn, "s2c")
+			p.with(func() { p.rerr = fmt.Errorf("transport: read: %w", context.Canceled); tr.emit(e) })
+		case "sreadtmp":
+			e.K = "sread"
+			p := rt.pipeOf(conn, "c2s")
+			p.with(func() { p.rerr = errTemporary{}; tr.emit(e) })
+		case "sreadctx":
+			e.K = "sread"
+			p := rt.pipeOf(conn, "c2s")
+			p.with(func() { p.rerr = fmt.Errorf("transport: read: %w", context.Canceled); tr.emit(e) })
 		case "sreadeof":
 			e.K = "sread"
 			p := rt.pipeOf(conn, "c2s")
